@@ -188,7 +188,9 @@ lookup (`NotificationsSinceHeight`) is made by the handler-side registration
 function and nowhere else, so snapshot, backlog push and map insert are one step
 of the handler goroutine; the backlog is pushed before the client is inserted
 into the map; fan-out reaches every client
-of the map; pushes and forwards are blocking (nothing dropped); `cancel()` is
+of the map; pushes and forwards are blocking (nothing dropped); the only send into a
+client's channel is the one in the forwarder goroutine that `NewSubscription`
+starts (followed through `go` into a named function or method); `cancel()` is
 once-guarded and is exactly stop-queue, close-quit, wait-forwarder,
 close-channel, the only close of that channel. -/
 theorem C11_source_facts :
@@ -198,6 +200,7 @@ theorem C11_source_facts :
     Gen.Subs.backlogLookupCallers = ["handleNewSubscription"] ∧
     Gen.Subs.backlogBeforeInsert = true ∧ Gen.Subs.fanoutEveryClient = true ∧
     Gen.Subs.pushBlocking = true ∧ Gen.Subs.forwardBlocking = true ∧
+    Gen.Subs.ntfnChanSendSites = 1 ∧
     Gen.Subs.cancelOnce = true ∧
     Gen.Subs.cancelSeq = ["s.ntfnQueue.Stop()", "close(s.quit)", "s.wg.Wait()", "close(s.ntfnChan)"] ∧
     Gen.Subs.closeChanSites = 1 ∧ chanCap = Gen.Subs.ntfnChanCap := by decide
